@@ -26,6 +26,33 @@ CHECKS = {
             "C19.cost / used_bytes give the exact heap bytes for every sequence: stride prefix free, 4 bytes per entry below 2^32, "
             "8 bytes from the first larger value on; dense_free covers every n < 2^64. The correspondence compares heap_size's "
             "used bytes of the real containers with the model and with the documented rule on exhaustive short sequences.", "§6 C19"),
+    "C02": ("Lean proof (frame law by induction over histories, every composition) + differential correspondence",
+            "C02.frame_history: any valid index reads the same after any history of pushes on any lawful region; C02.frame_reserve "
+            "extends it to the reservation calls. Scripts re-read all issued ordinals after every step of histories mixing push, "
+            "reserve_items, reserve_regions and FlatStack::reserve.", "§6 C02"),
+    "C03": ("Lean proof (FlatStack refines a list; FlatStack is itself a LawfulRegion) + differential correspondence",
+            "C03.rep_copy/rep_extend/rep_fromIter/rep_clear/observers: a stack represents the list of copied values for every lawful "
+            "region and every lawful index container; get(k) is none (a panic) exactly for k >= len. Scripts compare len, is_empty, "
+            "get incl. out-of-range, iteration, size hints and cloned iterators with a Vec shadow.", "§6 C03"),
+    "C08": ("Lean proof (clear yields a state bisimilar to default; bisimulation lifted over push sequences) + twin-run correspondence",
+            "C08.after_clear: for every lawful region (and FlatStack) and every history, after clear any push sequence returns the "
+            "same indices and reads as on Default::default(). Scripts run the continuation on the cleared region and a fresh twin.", "§6 C08"),
+    "C09": ("Lean proof (clone/clone_from laws per instance, observational equality via the bisimulation) + differential correspondence",
+            "C09.clone_observe / cloneFrom_observe: the copy is observationally the source (equal reads now, equal answers to every "
+            "further push sequence), for clone_from with an arbitrary destination; one inferInstance obligation per composition. "
+            "Independence is exercised by the scripts (mutate one, re-read the other).", "§6 C09"),
+    "C10": ("Lean proof (reserve_* and merge_regions laws per instance) + twin-run correspondence",
+            "C10.reserveItems_invisible / reserveRegions_invisible / merge_fresh / stack_*: reservations with arbitrary announcements "
+            "and merging from arbitrary sources are invisible up to the bisimulation, for every uncoded composition (inferInstance "
+            "per entry); coded regions are covered by C06/C07.", "§6 C10"),
+    "C11": ("Lean proof (hit-or-miss characterisation of CollapseSequence::push) + exhaustive short-sequence correspondence",
+            "C11.hit_or_miss: a push either returns the remembered index with the state literally unchanged (iff == to the remembered "
+            "item) or stores through the inner region; forgets_on_reset covers default/clear, merge by C10. Scripts enumerate all "
+            "sequences of a fixed length over three values on the top-level collapse entries and random ones with clear/merge/clone/"
+            "serde on nested ones.", "§6 C11"),
+    "C12": ("Lean proof (dense-index invariant of ConsecutiveIndexPairs and ColumnsRegion) + differential correspondence",
+            "C12.kth / columns_kth: the k-th push since creation, merge or clear returns k; columns_row_exact: the row reads back with "
+            "exactly its own length. Scripts use empty items and ragged rows across clear/merge on every consec/columns entry.", "§6 C12"),
 }
 
 
